@@ -23,7 +23,7 @@ ap = subprocess.run("git -C /repo apply --check %s/patch.diff" % d, shell=True, 
 t = subprocess.run("cd %s && /venv/bin/python -m pytest -q -p no:cacheprovider --timeout=900 --continue-on-collection-errors 2>&1 | tail -1" % wt,
                    shell=True, capture_output=True, text=True).stdout.strip()
 ok_tests = re.search(r"\b92 passed\b", t) is not None
-meta = {"property": pid, "origin": "independent sub-agent (round 2) given only the property text and a scratch worktree",
+meta = {"property": pid, "origin": "independent sub-agent (round %s) given only the property text and a scratch worktree" % os.environ.get("SEEDED_ROUND", "2"),
         "change": change, "needs": needs,
         "confirmed": "%s exits %d on /repo and %d with the patch (%s); baseline suite in the patched worktree: %s; patch applies to /repo: %s"
                      % (demo[0], r0.returncode, r1.returncode, (r1.stderr.strip().splitlines() or ["?"])[-1][:200], t, ap.returncode == 0)}
